@@ -617,6 +617,69 @@ def three_way(ctx, func, stmts, a, b):
     return out
 
 
+def const_values(ctx, func, e):
+    """The constants an argument can be: [value] for a literal, the items for
+    a name that is (only) the target of a `for` over a literal tuple / list
+    of constants; None otherwise."""
+    if isinstance(e, ast.Constant):
+        return [e.value]
+    if isinstance(e, ast.Name):
+        facts, is_param = ctx.ty.facts_at(func, e.id, e)
+        if is_param or len(facts) != 1 or facts[0].kind != "elem" or facts[0].path:
+            return None
+        it = facts[0].value
+        if isinstance(it, (ast.Tuple, ast.List)) and it.elts and \
+                all(isinstance(x, ast.Constant) for x in it.elts):
+            return [x.value for x in it.elts]
+    return None
+
+
+def sum_form(ctx, func):
+    """A function that returns a start value plus one term per item of an
+    iterable: dict(start=, iter=, target=, elt=, node=) for
+    `acc = S; for x in IT: acc += E; return acc` and for
+    `return sum((E for x in IT), S)` (also through a temporary, list
+    comprehension, or without start = 0).  None otherwise."""
+    rets = returns(func)
+    if len(rets) != 1 or rets[0].value is None:
+        return None
+    v = rets[0].value
+    if isinstance(v, ast.Name):
+        accs = [n for n in func.own_nodes() if isinstance(n, ast.AugAssign)
+                and isinstance(n.target, ast.Name) and n.target.id == v.id]
+        inits = [n for n in func.own_nodes() if isinstance(n, ast.Assign)
+                 and len(n.targets) == 1 and isinstance(n.targets[0], ast.Name)
+                 and n.targets[0].id == v.id]
+        if len(accs) == 1 and len(inits) == 1 and isinstance(accs[0].op, ast.Add):
+            lp = getattr(accs[0], "_parent", None)
+            if isinstance(lp, ast.For) and accs[0] in lp.body and not lp.orelse and \
+                    inits[0] in func.body and lp in func.body and \
+                    func.body.index(inits[0]) < func.body.index(lp) and \
+                    not any(isinstance(x, (ast.Break, ast.Continue, ast.Return))
+                            for b in lp.body for x in ast.walk(b)):
+                return dict(start=inits[0].value, iter=lp.iter, target=lp.target,
+                            elt=accs[0].value, node=accs[0])
+            return None
+        if not accs and len(inits) == 1:
+            v = inits[0].value
+    if isinstance(v, ast.Call) and isinstance(v.func, ast.Name) and v.func.id == "sum" \
+            and 1 <= len(v.args) <= 2 and not v.keywords:
+        g = v.args[0]
+        if isinstance(g, (ast.GeneratorExp, ast.ListComp)) and len(g.generators) == 1 \
+                and not g.generators[0].ifs:
+            start = v.args[1] if len(v.args) == 2 else ast.Constant(value=0)
+            return dict(start=start, iter=g.generators[0].iter,
+                        target=g.generators[0].target, elt=g.elt, node=rets[0])
+    return None
+
+
+def catoms_of_guards(ctx, func, stmt, stop=None, asserts=False):
+    """Canonical atoms (temporaries inlined) of the structural guards of a
+    statement."""
+    from .cfg import atomic_guards
+    return {catom(ctx, func, t, pol, True) for t, pol in atomic_guards(stmt, stop, asserts)}
+
+
 def T(text_, pol=True):
     """Canonical truth atom."""
     return ("truth", text_.replace(" ", ""), pol)
